@@ -442,6 +442,101 @@ fn cmd_replay(path: &str) -> i32 {
     }
 }
 
+/// Runs one job in this process, single-threaded (child of `hunt`).
+fn cmd_runjob(prop: &str, tier: Tier, job: u64, emit_at: Option<u64>) -> i32 {
+    let Some(scn) = scenario(prop) else { return 2 };
+    let seed = seed_from_env();
+    let mut sink = Sink::new(scn.property());
+    sink.cur_job = job;
+    sink.progress = emit_at.is_none();
+    sink.emit_at = emit_at;
+    scn.run_job(seed, tier, job, &mut sink);
+    0
+}
+
+/// The simulator process itself died (abort, stack overflow, ...) while
+/// running server code: find the plan that kills it by running every job in
+/// a child process, and write it out as a replay file.
+fn cmd_hunt(prop: &str, tier: Tier) -> i32 {
+    let Some(scn) = scenario(prop) else { return 2 };
+    let njobs = scn.jobs(tier);
+    let exe = std::env::current_exe().expect("current_exe");
+    let tier_s = if tier == Tier::Quick { "quick" } else { "thorough" };
+    let next = AtomicU64::new(0);
+    let found: Mutex<Option<(u64, u64, String)>> = Mutex::new(None);
+    std::thread::scope(|s| {
+        for _ in 0..workers() {
+            s.spawn(|| loop {
+                if found.lock().unwrap().is_some() {
+                    break;
+                }
+                let j = next.fetch_add(1, Ordering::SeqCst);
+                if j >= njobs {
+                    break;
+                }
+                let out = std::process::Command::new(&exe)
+                    .args(["runjob", prop, tier_s, &j.to_string()])
+                    .output();
+                let Ok(out) = out else { continue };
+                if out.status.success() {
+                    continue;
+                }
+                use std::os::unix::process::ExitStatusExt;
+                if out.status.signal().is_none() {
+                    continue; // a harness error, not a crash
+                }
+                let text = String::from_utf8_lossy(&out.stdout);
+                let sub = text
+                    .lines()
+                    .rev()
+                    .find_map(|l| l.strip_prefix("sub=").and_then(|x| x.parse::<u64>().ok()))
+                    .unwrap_or(0);
+                let err = String::from_utf8_lossy(&out.stderr);
+                let why = format!(
+                    "simulator process killed by signal {:?} while executing this plan; stderr tail: {}",
+                    out.status.signal(),
+                    err.lines().rev().take(3).collect::<Vec<_>>().join(" | ")
+                );
+                let mut f = found.lock().unwrap();
+                if f.as_ref().map(|(fj, _, _)| j < *fj).unwrap_or(true) {
+                    *f = Some((j, sub, why));
+                }
+            });
+        }
+    });
+    let Some((job, sub, why)) = found.into_inner().unwrap() else {
+        println!("hunt: no job crashes the simulator");
+        return 0;
+    };
+    let out = std::process::Command::new(&exe)
+        .args(["emitplan", prop, tier_s, &job.to_string(), &sub.to_string()])
+        .output()
+        .expect("emitplan");
+    let plan: serde_json::Value = match serde_json::from_slice(
+        out.stdout.split(|b| *b == b'\n').filter(|l| l.starts_with(b"{")).last().unwrap_or(&[]),
+    ) {
+        Ok(p) => p,
+        Err(e) => {
+            eprintln!("hunt: could not recover the crashing plan: {e}");
+            return 2;
+        }
+    };
+    let dir = verif_dir().join("replays");
+    let _ = std::fs::create_dir_all(&dir);
+    let path = dir.join(format!("{}-crash-job{}-sub{}.json", prop, job, sub));
+    let rule = format!("{}.process_crash", prop.to_lowercase());
+    write_json(
+        &path,
+        &serde_json::json!({
+            "property": prop, "rule": rule, "detail": why, "verif_seed": seed_from_env(),
+            "job": job, "sub": sub, "fingerprint": "", "plan": plan,
+        }),
+    );
+    println!("violation rule={} job={} sub={} detail={}", rule, job, sub, why);
+    println!("VIOLATION property={} replay={}", prop, path.display());
+    1
+}
+
 fn cmd_fps(prop: &str, tier: Tier, from: u64, to: u64) -> i32 {
     let Some(scn) = scenario(prop) else { return 2 };
     let seed = seed_from_env();
@@ -458,6 +553,16 @@ fn main() {
     let code = match args.get(1).map(|s| s.as_str()) {
         Some("run") if args.len() >= 3 => cmd_run(&args[2], tier_from(args.get(3))),
         Some("replay") if args.len() >= 3 => cmd_replay(&args[2]),
+        Some("hunt") if args.len() >= 3 => cmd_hunt(&args[2], tier_from(args.get(3))),
+        Some("runjob") if args.len() >= 5 => {
+            cmd_runjob(&args[2], tier_from(args.get(3)), args[4].parse().unwrap_or(0), None)
+        }
+        Some("emitplan") if args.len() >= 6 => cmd_runjob(
+            &args[2],
+            tier_from(args.get(3)),
+            args[4].parse().unwrap_or(0),
+            Some(args[5].parse().unwrap_or(0)),
+        ),
         Some("fps") if args.len() >= 6 => cmd_fps(
             &args[2],
             tier_from(args.get(3)),
